@@ -465,3 +465,73 @@ UNITS += [
          assumptions=["IEEE product lemma assumed: 0 <= fmax * u <= fmax for u in [0, 1), and fmax * 0 == 0 (the product's value is uninterpreted)"],
          note="RejectionSampler: exactly one draw; never rejects at the envelope f == fmax nor on a zero draw"),
 ]
+
+
+# ---------------------------------------------------------------------------
+# UniformBoxDistribution: component i of the sample comes from the sampler built on [lower[i], upper[i]]
+# ---------------------------------------------------------------------------
+UBX = "src/celeritas/random/distribution/UniformBoxDistribution.hh"
+
+
+def build_uniform_box(ctx):
+    from vkit.extract import init_list, ExtractionDrift
+    sp = ctx.span(UBX, r"^UniformBoxDistribution<RealType>::UniformBoxDistribution\(result_type lower,", r"\n\{\n.*?\n\}", [], name="UniformBoxDistribution(lower, upper)")
+    k = sp.body.index("\n{\n")
+    il = init_list(sp.body[:k])
+    import re
+    want = "UniformRealDist{lower[0], upper[0]}, UniformRealDist{lower[1], upper[1]}, UniformRealDist{lower[2], upper[2]}"
+    if len(il) != 1 or il[0][0] != "sample_pos_" or re.sub(r"\s+", " ", il[0][1]) != want:
+        raise ExtractionDrift("UniformBoxDistribution initializer list is not sample_pos_{URD{lower[i], upper[i]}, i = 0, 1, 2}: %r" % (il,))
+    ctor_body = re.sub(r"\b(lower|upper)\[(\d)\]", r"\1.v[\2]", sp.body[k + 3:-1])
+    pc = ctx.func(UBX, r"^UniformBoxDistribution<RealType>::operator\(\)\(Generator& rng\) -> result_type", [
+        Rule(r"result_type result;", "Real3 result = {{0, 0, 0}};", 1, note="Array<real_type, 3>"),
+        Rule(r"result\[(\w+)\] = sample_pos_\[(\w+)\]\(rng\);", r"result.v[\1] = URD_sample(&self->sample_pos_[\2], \2, rng);", "+", note="component sampler call -> UniformRealDistribution by its contract"),
+    ], name="UniformBoxDistribution::operator()")
+    return (HDR + """
+typedef struct Engine Engine;
+typedef struct { real_type v[3]; } Real3;
+typedef struct { real_type a_, delta_; } UniformRealDist;
+typedef struct { UniformRealDist sample_pos_[3]; } UniformBoxDistribution;
+unsigned g_draws; int g_which[3]; real_type g_val[3];
+/* UniformRealDistribution(a, b): a_ = a, delta_ = b - a, own EXPECT a <= b (constructor text checked in the C20 units) */
+static UniformRealDist URD_make(real_type a, real_type b) { __CPROVER_assert(a <= b, "celer_expect: UniformRealDistribution a <= b"); UniformRealDist d = {a, b - a}; return d; }
+/* UniformRealDistribution::operator(): one draw, a value in [a, a + delta] (closed by rounding; fma: not under contract) */
+static real_type nondet_real(void);
+static real_type URD_sample(UniformRealDist const* d, int which, Engine* rng)
+{
+    real_type r = nondet_real();
+    __CPROVER_assume(r >= d->a_ && r <= d->a_ + d->delta_);
+    if (g_draws < 3) { g_which[g_draws] = which; g_val[g_draws] = r; }
+    ++g_draws;
+    return r;
+}
+void UBX_ctor(UniformBoxDistribution* self, Real3 lower, Real3 upper)
+__CPROVER_requires(self != 0 && lower.v[0] <= upper.v[0] && lower.v[1] <= upper.v[1] && lower.v[2] <= upper.v[2])     /* own CELER_EXPECTs */
+__CPROVER_requires(!__CPROVER_isinfd(lower.v[0]) && !__CPROVER_isinfd(lower.v[1]) && !__CPROVER_isinfd(lower.v[2]) && !__CPROVER_isinfd(upper.v[0]) && !__CPROVER_isinfd(upper.v[1]) && !__CPROVER_isinfd(upper.v[2]))   /* a finite box */
+__CPROVER_assigns(__CPROVER_object_whole(self))
+__CPROVER_ensures(self->sample_pos_[0].a_ == lower.v[0] && self->sample_pos_[1].a_ == lower.v[1] && self->sample_pos_[2].a_ == lower.v[2])
+__CPROVER_ensures(self->sample_pos_[0].delta_ == upper.v[0] - lower.v[0] && self->sample_pos_[1].delta_ == upper.v[1] - lower.v[1] && self->sample_pos_[2].delta_ == upper.v[2] - lower.v[2])
+{
+    /* member initializer list (text checked above): sample_pos_{URD{lower[0], upper[0]}, URD{lower[1], upper[1]}, URD{lower[2], upper[2]}} */
+    self->sample_pos_[0] = URD_make(lower.v[0], upper.v[0]); self->sample_pos_[1] = URD_make(lower.v[1], upper.v[1]); self->sample_pos_[2] = URD_make(lower.v[2], upper.v[2]);
+""" + ctor_body + """}
+Real3 UBX_call(UniformBoxDistribution const* self, Engine* rng)
+__CPROVER_requires(self != 0 && g_draws == 0)
+__CPROVER_assigns(g_draws, __CPROVER_object_whole(g_which), __CPROVER_object_whole(g_val))
+/* three draws, one per axis in order x, y, z; component i is the value drawn from axis i's own sampler, hence inside [lower[i], upper[i]] (up to the closing rounding) */
+__CPROVER_ensures(g_draws == 3 && g_which[0] == 0 && g_which[1] == 1 && g_which[2] == 2)
+__CPROVER_ensures(__CPROVER_return_value.v[0] == g_val[0] && __CPROVER_return_value.v[1] == g_val[1] && __CPROVER_return_value.v[2] == g_val[2])
+__CPROVER_ensures(__CPROVER_return_value.v[0] >= self->sample_pos_[0].a_ && __CPROVER_return_value.v[1] >= self->sample_pos_[1].a_ && __CPROVER_return_value.v[2] >= self->sample_pos_[2].a_)
+{""" + pc.body + """}
+void h_ubx_ctor(void) { UniformBoxDistribution d; Real3 lo, hi; UBX_ctor(&d, lo, hi); VERIF_CANARY(); }
+void h_ubx(void) { UniformBoxDistribution d; Engine* e; for (int i = 0; i < 3; ++i) __CPROVER_assume(!__CPROVER_isnand(d.sample_pos_[i].a_) && d.sample_pos_[i].delta_ >= 0); UBX_call(&d, e); VERIF_CANARY(); }
+""")
+
+
+UNITS += [
+    Unit("c15_uniform_box_ctor", build_uniform_box, "h_ubx_ctor", enforce="UBX_ctor", timeout=120, backend=["sat", "cvc5"], must_have=[r"UBX_ctor.postcondition", r"celer_expect"], checks=["--bounds-check", "--pointer-check"],
+         note="UniformBoxDistribution constructor: axis i samples on [lower[i], upper[i]]; the component samplers' own precondition (a <= b) holds"),
+    Unit("c15_uniform_box", build_uniform_box, "h_ubx", enforce="UBX_call", unwind=5, timeout=120, backend=["sat", "cvc5"], must_have=[r"UBX_call.postcondition"], checks=["--bounds-check", "--pointer-check"],
+         assumptions=["UniformRealDistribution::operator(): one draw in [a, a + delta] (fma; not under contract)"],
+         note="UniformBoxDistribution::operator(): three draws, component i from axis i's own sampler (so inside the box)"),
+]
